@@ -22,6 +22,8 @@ pub struct SinkState {
     pub fail_once: bool,
     pub short: usize, // 0 = accept everything, else accept at most this many bytes per call
     pub failures: usize,
+    /// length of `accepted` when the (first) failure was injected
+    pub accepted_at_failure: Option<usize>,
 }
 
 #[derive(Clone)]
@@ -37,6 +39,7 @@ impl Sink {
         match s.fail_from {
             Some(f) if (s.fail_once && k == f) || (!s.fail_once && k >= f) => {
                 s.failures += 1;
+                if s.accepted_at_failure.is_none() { s.accepted_at_failure = Some(s.accepted.len()); }
                 true
             }
             _ => false,
